@@ -542,3 +542,29 @@ _add("C02", "brotli's OWN bit reader and prefix decoder at implementation level 
      "histories on both source paths (no over-consumption after FlushOffset; brotli's copy has no look-ahead bits, so defect D5 "
      "of internal/prefix does not exist there), Init builds correct tables in both assignCodes modes over any stale storage, "
      "ReadSymbol returns the symbol consuming exactly the code word (Brotli/*Thms.v).")
+
+_add("C01", "ADDED: THE PROPERTY AT IMPLEMENTATION LEVEL (Flate/Impl.v + 16 proof files, 6600 lines, by a proof sub-agent): a model of "
+     "flate.Reader itself - Read loop, the four step functions incl. the resumable readBlock, ReadPrefixCodes with the degenerate "
+     "rule and the MinBits adjustment, the Try* fast paths - composed of the bit-reader, decoder-table and window models and "
+     "compared with the real Reader PER Read CALL (bytes, error, both offsets, source position; WFLIMPL), is proved to REFINE "
+     "the RFC 1951 model for every input, every source script, a fresh or Reset Reader and every Read schedule: never a wrong "
+     "byte, never a panic; on Peek-capable sources exactly the RFC result (output, class, offsets) on EVERY input; on every source "
+     "kind valid streams decode exactly with no over-consumption. The remaining trust: that Flate/Impl.v is flate.Reader "
+     "(per-call correspondence) and that Flate/Spec.v is RFC 1951 (cross-checked with zlib and compress/flate on every run).")
+_add("C10", "ADDED: for flate.Reader the independence from Read sizes and source fragmentation is a THEOREM about the "
+     "implementation-level model (Flate/ImplThms.v: for every schedule and script the delivered bytes are a prefix of one fixed "
+     "string and the outcome is the RFC model's); the exception for ReadByte-only sources is exactly known finding D10, whose "
+     "negative statement is also proved inside Coq (flate_class_depends_on_source_kind_D10).")
+_add("C11", "ADDED: flate.Reader at implementation level consumes exactly the stream on both source kinds, for every script and Read "
+     "schedule: InputOffset and the source position equal the stream length at io.EOF (flate_reader_consumes_exactly_the_stream).")
+_add("C14", "ADDED: flate.Reader.Reset: the refinement theorem holds from fl_reset of ANY earlier state exactly as from a new Reader "
+     "(recycled window buffer and decoder tables of arbitrary content).")
+_add("C13", "ADDED: bzip2.Writer and meta.Writer THEMSELVES at implementation level (Bzip2/WriterImpl.v, Meta/WriterImpl.v: the real call "
+     "structure of writer.go over the bit-writer model and a scripted failing sink - errors.Recover followed by the unconditional "
+     "Flush, the latch, errClosed, offsets; compared PER CALL with the real Writers incl. every accepted size of every sink call: "
+     "WBZW, WMETAW) with, for every history and sink script: once failed every later call fails and makes no sink call; the "
+     "failing call returns the sink's error; Close = nil implies no sink failure and sink = bzip2_encode level data (resp. "
+     "meta_encode payload mode); bytes accepted up to the first failed sink call are a prefix of the fault-free output; offsets "
+     "exact; Reset gives a Writer equal to a new one (false for an Init that keeps cntBuf: reset_with_stale_cntBuf_differs). "
+     "Negative result proved and checked against Go: after the failed sink call at most two more sink calls happen inside the same "
+     "user call and may repeat staged bytes (not a continuation) - the property constrains only bytes before the failure.")
